@@ -170,6 +170,15 @@ def history_plan(world, fill):
     extra.append({"op": "set", "k": 0, "type": "Bool", "group": None, "key": "lesim-refused", "v": "maybe", "tag": "refused_new"})
     extra.append({"op": "set", "k": 0, "type": "Bool", "group": "lesim-sec", "key": "lesim-refused", "v": "2", "tag": "refused_new"})
     extra.append({"op": "set", "k": 0, "type": "String", "group": None, "key": "lesim-after", "v": "x", "tag": "after_refused"})
+    # an object created with options (prefix, directory lists, flags) and filled through the setters as input of the public
+    # merge, in both roles: each object owns its own strings afterwards
+    extra.append({"op": "newOpts", "o": 30, "options": "ROOT_PREFIX=$ROOT/x;CONFIG_DIRS=.d:.e;PARSING_DIRS=$ROOT/a:$ROOT/b;JOIN_SAME_ENTRIES=1", "tag": "optobj"})
+    extra.append({"op": "set", "k": 30, "type": "String", "group": "dflt", "key": "k", "v": "v", "need": ["k"], "tag": "optobj"})
+    extra.append({"op": "merge", "o": 31, "usr": 30, "etc": 0, "need": ["usr", "etc"], "tag": "optmerge"})
+    extra.append({"op": "merge", "o": 32, "usr": 0, "etc": 30, "need": ["usr", "etc"], "tag": "optmerge"})
+    extra.append({"op": "dump", "k": 31, "ext": True, "tag": "optdump"})
+    for sl in (31, 30, 32):
+        extra.append({"op": "free", "k": sl})
     p["ops"] = p["ops"][:-2] + extra + p["ops"][-2:] + [{"op": "freeNull", "tag": "freenull"}]
     p["cfg"] = dict(world["cfg"], fill=fill)
     return p
